@@ -319,8 +319,17 @@ impl<T> Default for Queue<T> {
 impl<T> Drop for Queue<T> {
     fn drop(&mut self) {
         while self.pop().is_some() {}
-        // release the stub
-        let _: Box<Node<T>> = unsafe { Box::from_raw(*self.tail.get()) };
+        // drop the list's reference to the stub. The stub is the last popped node,
+        // its `Entry` may be still alive and owns the node then: unlink it like
+        // `pop` does for the stubs it leaves behind instead of freeing it
+        unsafe {
+            let tail = *self.tail.get();
+            (*tail).refs &= REF_COUNT_MASK;
+            (*tail).refs -= 1;
+            if (*tail).refs == 0 {
+                let _: Box<Node<T>> = Box::from_raw(tail);
+            }
+        }
     }
 }
 
